@@ -7,7 +7,7 @@ rnd = int(sys.argv[1])
 root = os.path.join(os.path.dirname(os.path.abspath(__file__)), "..")
 out = "/tmp/mutant_prompts%d" % rnd
 os.makedirs(out, exist_ok=True)
-words = {2: "two", 4: "four", 6: "six", 8: "eight", 10: "ten", 12: "twelve", 14: "fourteen"}
+words = {2: "two", 4: "four", 6: "six", 8: "eight", 10: "ten", 12: "twelve", 14: "fourteen", 16: "sixteen", 18: "eighteen", 20: "twenty"}
 for line in open(os.path.join(root, "properties.jsonl")):
     p = json.loads(line)
     pid = p["id"]
